@@ -100,8 +100,8 @@ def run_case(ctx, rng, idx):
     if idx >= nr:
         return pattern_case(ctx, rng, idx - nr)
     m = idx % 10
-    if m <= 7:
-        undirected_case(ctx, rng, idx, 3 if m <= 5 else 4)
+    if m <= 6:
+        undirected_case(ctx, rng, idx, 3 if m <= 4 else 4)
     else:
         directed_case(ctx, rng, idx, 3 if rng.random() < 0.6 else 4)
 
@@ -233,6 +233,16 @@ def directed_case(ctx, rng, idx, N):
         ns = rng.sample(nodes, s)
         cut = rng.randint(1, s - 1)
         edges.add((tuple(sorted(ns[:cut])), tuple(sorted(ns[cut:]))))
+    if rng.random() < 0.5:
+        # several DIFFERENT hyperedges over the same node set (other split, reversed direction): one node set, one visit
+        for s_, t_ in rng.sample(sorted(edges), min(len(edges), 2)):
+            ns = list(s_) + list(t_)
+            if 2 <= len(ns) <= N:
+                rng.shuffle(ns)
+                cut = rng.randint(1, len(ns) - 1)
+                edges.add((tuple(sorted(ns[:cut])), tuple(sorted(ns[cut:]))))
+                if rng.random() < 0.5:
+                    edges.add((t_, s_))
     edges = sorted(edges)
 
     def census(es):
